@@ -9,7 +9,7 @@ VERIF = os.path.dirname(os.path.dirname(os.path.abspath(__file__)))
 COQ_DIR = os.path.join(VERIF, "coq")
 BUILD = os.path.join(VERIF, "_build")
 
-HEADER = """From Coq Require Import ZArith NArith List String Bool.
+HEADER = """From Coq Require Import ZArith NArith List String Bool Ascii.
 From Valida Require Import {imports}.
 Import ListNotations.
 Open Scope string_scope.
